@@ -122,7 +122,7 @@ pub fn run(args: &Args) {
     }
     report.run_regressions(run_input);
 
-    let n = args.tier.pick(6000, 300_000);
+    let n = args.tier.pick(40_000, 600_000);
     let res = vcore::run_prop_parallel(&report, "programs", n, vcore::num_workers(), cases::case_strategy, |spec| {
         let case = materialise(spec, &ex);
         let expect = expect_of(&case.kind, &case.note);
